@@ -99,7 +99,10 @@ def run(tier):
     from . import C19
     import shutil
     cfgs = [("c18:bcrypt_a", ["bcrypt_a", "sha256crypt"]), ("c18:glibc", ["descrypt", "md5crypt", "sha256crypt", "sha512crypt"]),
-            ("c18:bigcrypt", ["bigcrypt", "gost_yescrypt"])]
+            ("c18:bigcrypt", ["bigcrypt", "gost_yescrypt"]),
+            # the table's last tagged entry without the empty-prefix DES entries behind it, and nothing but DES
+            ("c18:bsdi-no-des", ["bsdicrypt", "sha512crypt"]), ("c18:nt-last", ["nt", "yescrypt"]),
+            ("c18:des-only", ["descrypt"])]
     if tier == "thorough":
         rngc = rt.rng_for(run_.seed, PID, "cfg")
         cfgs += [("c18:rnd%d" % i, sorted(rngc.sample(gen.METHODS, rngc.randint(1, 8)))) for i in range(6)]
